@@ -19,7 +19,9 @@ ALLOWED_AXIOMS = {'propext', 'Classical.choice', 'Quot.sound'}
 
 TRUSTED_BASE_COMMON = [
     'Lean 4.33.0 kernel (theorems audited with #print axioms; allowed axioms: propext, Classical.choice, Quot.sound)',
-    'tools/extract.py (translator regenerating ReplicatModel/Generated.lean from /repo on every run)',
+    'tools/extract.py + tools/sections/*.py (translator regenerating ReplicatModel/Generated.lean from /repo on every run) with the symbolic executors they are built on: '
+    'tools/cexpr.py (C expressions / decision trees), tools/pyflow.py, tools/symflow.py, tools/symfacts.py, tools/symflow_fmt.py, tools/replicat_facts.py, tools/optflow.py; '
+    'an unrecognised shape yields false / opaque (a broken obligation), never an assumed fact',
     'harness/* (generators, canonicalisers, fakes, oracles) and the compiled driver lean/Driver/* running the same model definitions the theorems are about',
     'CPython, the OS, third-party libraries (httpx, backoff, cryptography, hashlib) — modelled, not verified',
 ]
